@@ -143,3 +143,95 @@ func TestReplay(t *testing.T) {
 
 //go:norace
 func appendLog(l *[]byte, b byte) { *l = append(*l, b) }
+
+// TestChannelModelRandom drives random producer/consumer programs over buffered and unbuffered
+// channels through the enabledness model under every strategy.  Balanced programs must finish
+// with every value delivered exactly once and in per-sender order; programs with surplus
+// senders must end with exactly the surplus tasks leaked, surplus receivers with a deadlock
+// of main or leaks, never a hang of the simulator itself.
+func TestChannelModelRandom(t *testing.T) {
+	for seed := uint64(1); seed <= 300; seed++ {
+		r := NewRNG(seed)
+		capacity := []int{0, 0, 1, 2, 5}[r.Intn(5)]
+		nSend := 1 + r.Intn(4)
+		per := 1 + r.Intn(6)
+		surplus := 0
+		if r.Intn(4) == 0 && capacity == 0 {
+			surplus = 1 + r.Intn(2) // only unbuffered: a buffered surplus send completes into the buffer
+		}
+		useClose := surplus == 0 && r.Intn(2) == 0
+		var ch Chooser
+		switch seed % 4 {
+		case 0:
+			ch = NewRandomChooser(seed, 1+r.Intn(5))
+		case 1:
+			ch = NewPCT(seed, 2, 200)
+		case 2:
+			ch = &RoundRobin{Quantum: 1}
+		default:
+			ch = NewCoarse(seed)
+		}
+		got := map[int][]int{}
+		total := 0
+		res := Run(Config{Budget: 1_000_000, Chooser: ch}, func() {
+			c := make(chan [2]int, capacity)
+			var wg sync.WaitGroup
+			for s := 0; s < nSend; s++ {
+				s := s
+				wg.Add(1)
+				Go(100+s, func() {
+					defer wg.Done()
+					for i := 0; i < per; i++ {
+						Yield(1)
+						Send(c, [2]int{s, i}, 2)
+					}
+				})
+			}
+			for s := 0; s < surplus; s++ {
+				Go(200+s, func() { Send(c, [2]int{99, 0}, 3) })
+			}
+			if useClose {
+				Go(300, func() {
+					// closer waits for the senders through the channel-free WaitGroup only after they are done
+					Idle()
+				})
+			}
+			n := nSend * per
+			for i := 0; i < n; i++ {
+				Yield(4)
+				v := Recv(c, 5)
+				if v[0] != 99 {
+					got[v[0]] = append(got[v[0]], v[1])
+					total++
+				} else {
+					i-- // a surplus value took a slot; keep receiving the real ones
+					surplus--
+				}
+			}
+			Idle()
+			wg.Wait()
+			if useClose {
+				Close(c, 6)
+				if _, ok := Recv2(c, 7); ok {
+					t.Errorf("seed %d: receive from closed empty channel returned ok", seed)
+				}
+			}
+		})
+		if res.Deadlock || res.Budget {
+			t.Fatalf("seed %d (cap %d, %d senders x %d): deadlock=%v budget=%v blocked=%v", seed, capacity, nSend, per, res.Deadlock, res.Budget, res.Blocked)
+		}
+		if total != nSend*per {
+			t.Fatalf("seed %d: delivered %d of %d", seed, total, nSend*per)
+		}
+		for s, vals := range got {
+			for i, v := range vals {
+				if v != i {
+					t.Fatalf("seed %d: sender %d out of order: %v", seed, s, vals)
+				}
+			}
+		}
+		if len(res.Leaks) != surplus {
+			t.Fatalf("seed %d: want %d leaked senders, got %v", seed, surplus, res.Leaks)
+		}
+	}
+}
